@@ -46,7 +46,7 @@ def tweak_for(rng, d):
 
 def wl_single(ctx, config):
     rng = ctx.rng
-    for it in range(ctx.n(2500, 60000)):
+    for it in ctx.iters(2500, 60000):
         d = pools.scalar(rng, 0.35); valid = 0 < d < n
         sk = b32(d)
         # creation
@@ -132,7 +132,7 @@ def wl_single(ctx, config):
 def wl_history(ctx, config):
     rng = ctx.rng
     maxlen = 40 if ctx.quick else 400
-    for it in range(ctx.n(160, 1600)):
+    for it in ctx.iters(160, 1600):
         d = pools.valid_seckey(rng, 0.3); P = mulG(d)
         sk = b32(d); po = pkobj(ctx, P, config)
         if po is None: continue
@@ -188,7 +188,7 @@ def wl_history(ctx, config):
 
 def wl_combine(ctx, config):
     rng = ctx.rng
-    for it in range(ctx.n(120, 3000)):
+    for it in ctx.iters(120, 3000):
         nk = rng.choice((1, 2, 3, 4, 5, 8, 16, 33, 64, 100, 200)) if rng.random() < 0.7 else rng.randrange(1, 201)
         ds = [rng.randrange(1, n) if rng.random() < 0.8 else rng.choice((1, 2, n - 1, n - 2, 3)) for _ in range(nk)]
         mode = it % 5
@@ -220,7 +220,7 @@ def wl_combine(ctx, config):
 def wl_sort(ctx, config):
     rng = ctx.rng
     def sign(x): return (x > 0) - (x < 0)
-    for it in range(ctx.n(150, 3000)):
+    for it in ctx.iters(150, 3000):
         nk = rng.choice((0, 1, 2, 3, 5, 8, 39, 40, 41, 64, 100, 199, 200)) if rng.random() < 0.6 else rng.randrange(0, 201)
         base = [rng.randrange(1, n) for _ in range(max(1, nk // 2 + 1))]
         ds = []
@@ -305,6 +305,30 @@ def wl_near_keys(ctx, config):
             keys = [ser33(pts[j]) for j in perm]; ok = all(keys[i] <= keys[i + 1] for i in range(len(keys) - 1))
         ctx.check(ok, "pubkey_sort:not_sorted:near_keys", "byte %d perm=%s keys=%s" % (k, perm, [ser33(P).hex() for P in pts]), config)
 
+def wl_small_x(ctx, config):
+    """Taproot check against a tweaked key whose x is below 2^256 - p: the internal key is built from the chosen OUTPUT
+    (P = T - t*G), so that the non-canonical 32-byte string x + p exists and must be refused (seeded change C04-7)"""
+    rng = ctx.rng
+    lim = 2**256 - p
+    xs = [x for x in list(range(1, 60)) + [lim - k for k in range(1, 40)] if lift_x(x) is not None]
+    for x in ctx.mine(xs * (1 if ctx.quick else 8)):
+        T0 = lift_x(x)
+        for T in (T0, neg(T0)):
+            for _ in range(12):
+                t = pools.valid_seckey(rng, 0.2); P = sub(T, mulG(t))
+                if P is not None and has_even_y(P): break
+            else: continue
+            xo = ctx.call("xonly_parse", xbytes(P), config=config)
+            if xo is None or xo.ret != 1: continue
+            par = T[1] & 1; det = "x(T)=%d t=%x P=%s" % (x, t, xbytes(P).hex())
+            r = ctx.call("xonly_tweak_add", xo.b(1), b32(t), config=config); ctx.ev("xonly_tweak_add", "small_x_output", True, x, par, t)
+            expect_pub(ctx, config, r, T, "xonly_tweak_add:small_x_output", det)
+            for (x32, pr, good, cls) in ((b32(x), par, True, "canonical"), (b32(x + p), par, False, "x_plus_p"), (b32(x + p), par ^ 1, False, "x_plus_p_other_parity"), (b32(x), par ^ 1, False, "other_parity")):
+                c = ctx.call("xonly_tweak_add_check", x32, pr, xo.b(1), b32(t), config=config)
+                if c is None: continue
+                ctx.ev("xonly_tweak_add_check", "small_x:" + cls, True, x, pr, t)
+                ctx.check(c.ret == (1 if good else 0), "xonly_tweak_add_check:small_x:%s:%s" % (cls, "rejected_correct" if good else "accepted_wrong"), det + " x32=%s parity=%d" % (x32.hex(), pr), config)
+
 def run(ctx):
     from vlib import smallgroup
     smallgroup.run(ctx, 'misc', {'tweak_reenc': 'accepted'})
@@ -314,3 +338,4 @@ def run(ctx):
         wl_combine(ctx, config)
         wl_sort(ctx, config)
         wl_near_keys(ctx, config)
+        wl_small_x(ctx, config)
